@@ -15,6 +15,10 @@ Pipeline
         subcommand parsers): namespace before and after the real call (captured by wrapping the
         static method for the duration of the call) vs the model's `applyParsingLinks`;
      K4 `strip_link_target_keys` on a clone of every parsed configuration vs the model;
+     T1-T4 parsers with subcommands as a parser TREE in the model: registrations at every level (parent
+        links, a second subcommand), the parent's apply_parsing_links call with its early returns in
+        source order and its recursion (also the calls made while links are switched off), the
+        recursive strip, and whole parse_args runs where the token selects the subcommand;
  (3) oracle on the real code, independent of the model: after every successful parse
      cfg[target] == compute_fn(*[cfg[s] for s in sources]) recomputed by the harness (every item of a
      list of classes), the target is not in required_args and a parse that does not supply it
@@ -1598,6 +1602,8 @@ def run(ctx: Ctx):
         "tied for parsers without subclass arguments by K2, elsewhere the namespace handed to apply_parsing_links is captured (K3)",
         "no plain dict on a key path (C11 domain); argument names are not Namespace method names",
         "links applied on instantiation are C16; the is_init_arg_mapping_typehint coercion is outside the model",
+        "parser trees: how a string value names a subcommand is a parameter (Names); the links of a parser do not write to its "
+        "subcommand dest nor into the sections of its subcommands (link_arguments finds no action for such keys); generated trees have depth 1",
         "values are compared with == and type(); object identity (an identity link stores the source's Namespace object itself) is outside",
     ]
     ctx.lean_build(extractors=["links_order"])
